@@ -128,6 +128,7 @@ async def run_history(ctx, tree, kind, ops, n, rnd, stop='clean', crash_at=None,
             await asyncio.sleep(0.08)
         await asyncio.sleep(0.3)
         writes = 0
+        wrote = None
         if shim and os.path.exists(crashlog):
             writes = sum(1 for _ in open(crashlog))
         if not sq.alive():
@@ -135,6 +136,9 @@ async def run_history(ctx, tree, kind, ops, n, rnd, stop='clean', crash_at=None,
         if stop == 'clean':
             sq.shutdown(20.0)
             ev.append({'e': 'Stop', 'kind': 'clean'})
+            import re as _re
+            m = _re.findall(r'Finished\.\s+Wrote (\d+) entries', sq.cache_log())
+            wrote = int(m[-1]) if m else None
         else:
             sq.kill()
             ev.append({'e': 'Stop', 'kind': 'killed'})
@@ -161,7 +165,7 @@ async def run_history(ctx, tree, kind, ops, n, rnd, stop='clean', crash_at=None,
     finally:
         await origin.stop()
         sq.stop()
-    return {'ev': ev, 'writes': writes, 'died': died, 'rebuilt': rebuilt, 'alive_after': alive_after, 'kind': kind, 'ops': ops, 'sizes': sizes, 'crash_at': crash_at, 'partial': partial, 'same_second': same_second, 'fresh': fresh, 'first_max': first_max}
+    return {'ev': ev, 'writes': writes, 'died': died, 'rebuilt': rebuilt, 'alive_after': alive_after, 'kind': kind, 'ops': ops, 'sizes': sizes, 'crash_at': crash_at, 'partial': partial, 'same_second': same_second, 'fresh': fresh, 'first_max': first_max, 'clean_log_entries': wrote}
 
 
 def fill(ev):
